@@ -6,9 +6,10 @@ from hypothesis import strategies as st
 from execclient import Script, hx, by_index
 from model_lang import Model, compare, dump_to_plain
 from runner import Failure, Outcome, h64
-from schema import emit_schema, o_str
+from schema import emit_schema, o_str, o_func
 
-SCHEMA = [o_str("s", "S0"), o_str("t", "T0")]
+SCHEMA = [o_str("s", "S0"), o_str("t", "T0"), o_func("include", "include")]
+INC = "c03_inc.conf"
 LONGNAME = "L" * 260
 ENV = {"a": "VAL", "e": "", "m": "q\"\\${'}\nz", LONGNAME: "LONGV", "L" * 255: "V255", "L" * 256: "V256",
        "g": "G" * 100, "g31": "g" * 31, "g32": "g" * 32, "g33": "g" * 33, "g300": "h" * 300, "g5000": "k" * 5000}
@@ -26,6 +27,11 @@ ESC_FRAGS = ["\\n", "\\t", "\\r", "\\b", "\\f", "\\a", "\\e", "\\v", "\\\\", "\\
              "\\xg", "\\x", "\\x00", "\\xff", "\\xFF", "\\X41", "\\N"]
 MISC_FRAGS = ["/* a * b */", "/** doc */", "/*** box ***/", "/* *p */", "/* a\n * b\n */", "a", "b c", "\r\n", "\n\r", "\x0b", "\x0c", "\n", "\t", "#", "//", "/*", "*/", "/* c */", "# c\n", "// c\n", "\"", "'", "{", "}", "=", ",", "(", ")", "+=",
               "+", "*", "\r", "\xe9", "\x01", "\x7f", "\xff", ";", "|", ":-"]
+
+
+def embed_inc(ctx, lit):
+    """the literal as the last thing of an included file: (main text, {file: text})"""
+    return "include(\"%s\")\nt = END\n" % INC, {INC: embed(ctx.split("@")[0], lit)[:-len("t = END\n")]}
 
 
 def embed(ctx, lit):
@@ -57,7 +63,7 @@ class C03:
             "body: 15, unquoted text: 18) up to length 4 (quick) / 5 (thorough) is embedded as `s = <literal>\\nt = END` and "
             "parsed with variables a=VAL, e=<empty>, m=<meta characters>, g*=<31..5000 bytes>, n unset; plus all concatenations of up to 2 "
             "(quick) / 3 (thorough) fragments from pools of escape, substitution and comment forms, plus random longer "
-            "literals. Oracle: an independent lexer+language model predicts return code and the exact bytes of s and t. "
+            "literals; the literals up to length 3 and the fragment pairs also as the tail of an included file. Oracle: an independent lexer+language model predicts return code and the exact bytes of s and t. "
             "Non-trivial = literal contains a backslash, $, quote or comment marker; distinct = distinct (context, literal)")
     assumptions = [
         "grey zone (DESIGN C03): unterminated \"... and /*... at end of input, NUL-denoting escapes, set-but-empty variable "
@@ -66,8 +72,8 @@ class C03:
         "re-run alone on the ASan build before it is reported",
     ]
 
-    def expected(self, text):
-        m = Model(SCHEMA, 0, env=ENV)
+    def expected(self, text, files=None):
+        m = Model(SCHEMA, 0, env=ENV, files=files)
         r = m.parse(text)
         return m, r
 
@@ -78,9 +84,20 @@ class C03:
             s.add("env", hx(k), hx(v))
         s.add("env", hx("n"), "~")
         idx = []
+        if "@" in ctx:
+            import os
+            from c02 import fixture_dir
+            s.add("cwd", hx(fixture_dir()))
         for lit in lits:
             s.add("newcase")
             s.add("init", 1, 0, 0)
+            if "@" in ctx:
+                main, files = embed_inc(ctx, lit)
+                s.add("mkfile", hx(os.path.join(fixture_dir(), INC)), hx(files[INC]))
+                ip = s.add("parse_buf", 1, hx(main))
+                idd = s.add("dump", 1)
+                idx.append((ip, idd))
+                continue
             ip = s.add("parse_buf", 1, hx(embed(ctx, lit)))
             idd = s.add("dump", 1)
             idx.append((ip, idd))
@@ -89,8 +106,13 @@ class C03:
         return r, idx
 
     def judge(self, ctx, lit, t, ip, idd):
-        text = embed(ctx, lit)
-        m, exp = self.expected(text)
+        if "@" in ctx:
+            text, files = embed_inc(ctx, lit)
+            m, exp = self.expected(text, files)
+            text = "%s with %s = %r" % (text, INC, files[INC])
+        else:
+            text = embed(ctx, lit)
+            m, exp = self.expected(text)
         if ip not in t or idd not in t:
             return "no-result", "executor produced no result for this literal"
         rc = t[ip]["rc"]
@@ -143,7 +165,7 @@ class C03:
                     fails.append(Failure(sig1, msg1, {"ctx": ctx, "lits": [lit]}))
         first = fails[0] if fails else None
         return Outcome(count=len(lits), keys=keys, class_counts=cc, failure=first, failures=fails[1:6],
-                       nontrivial=bool(keys), sample={"ctx": ctx, "literal": lits[len(lits) // 2], "text": embed(ctx, lits[len(lits) // 2])})
+                       nontrivial=bool(keys), sample={"ctx": ctx, "literal": lits[len(lits) // 2], "text": embed(ctx.split("@")[0], lits[len(lits) // 2])})
 
     def run(self, r):
         L = 4 if r.tier == "quick" else 5
@@ -173,6 +195,13 @@ class C03:
                         buf = []
             if buf:
                 cases.append({"ctx": ctx, "lits": buf})
+        # the same literals as the tail of an included file (a string or comment cannot run on into the includer): all
+        # literals up to length 3, all fragments and pairs of fragments
+        for ctx, alpha in ALPHA.items():
+            buf = ["".join(tup) for n in range(0, 4) for tup in itertools.product(alpha, repeat=n)]
+            buf += ["".join(tup) for n in (1, 2) for tup in itertools.product(frags, repeat=n)]
+            for k in range(0, len(buf), B):
+                cases.append({"ctx": ctx + "@inc", "lits": buf[k:k + B]})
         # long substitutions (name / default at and beyond typical fixed buffer sizes)
         longs = []
         for k in (30, 31, 32, 33, 63, 64, 65, 127, 128, 129, 250, 253, 254, 255, 256, 257, 258, 300, 1023, 1024, 1025, 4096, 70000):
@@ -191,7 +220,7 @@ class C03:
 
         @st.composite
         def case(draw):
-            ctx = draw(st.sampled_from(["dq", "sq", "bare"]))
+            ctx = draw(st.sampled_from(["dq", "sq", "bare", "dq@inc", "sq@inc", "bare@inc"]))
             lits = ["".join(draw(st.lists(frag, min_size=3, max_size=8))) for _ in range(50)]
             return {"ctx": ctx, "lits": lits}
         return case()
